@@ -379,6 +379,11 @@ func (ss *SortedSet) searchReverse(nodes []*SortedSetNode, excludeStart, exclude
 		}
 	}
 
+	if x == ss.header {
+		// no member has a score <= (or <) end
+		return nodes
+	}
+
 	for x != nil && limit > 0 {
 		if excludeStart {
 			if x.score <= start {
